@@ -17,7 +17,12 @@ Tables == <<
      F("gene", "d", Rg(7, 10, FALSE, FALSE)) >>,
   \* features touching both ends
   << F("source", "s", Rg(0, 10, FALSE, FALSE)), F("gene", "a", Rg(0, 3, FALSE, FALSE)), F("gene", "b", Cp(Rg(7, 10, FALSE, FALSE))),
-     F("CDS", "c", Rg(4, 6, FALSE, FALSE)), F("misc_feature", "e", Jn(<<Pt(0), Pt(9)>>)) >>
+     F("CDS", "c", Rg(4, 6, FALSE, FALSE)), F("misc_feature", "e", Jn(<<Pt(0), Pt(9)>>)) >>,
+  \* isoforms: same 5' end, 3' end and total length, different inner boundaries; exact duplicates
+  << F("source", "s", Rg(0, 10, FALSE, FALSE)), F("gene", "a", Jn(<<Rg(0, 3, FALSE, FALSE), Rg(6, 10, FALSE, FALSE)>>)),
+     F("gene", "b", Jn(<<Rg(0, 4, FALSE, FALSE), Rg(7, 10, FALSE, FALSE)>>)), F("gene", "d", Jn(<<Rg(0, 3, FALSE, FALSE), Rg(6, 10, FALSE, FALSE)>>)),
+     F("CDS", "c", Cp(Jn(<<Rg(1, 3, FALSE, FALSE), Rg(5, 8, FALSE, FALSE)>>))), F("CDS", "f", Cp(Jn(<<Rg(1, 4, FALSE, FALSE), Rg(6, 8, FALSE, FALSE)>>))),
+     F("misc_feature", "e", Rg(4, 5, FALSE, FALSE)) >>
 >>
 Topos == <<"linear", "circular">>
 
